@@ -712,7 +712,14 @@ class Engine:
                     lo, hi = INT_RANGES[ty]
                     v = max(lo, min(hi, v))
                 return v
-            raise Unsupported("symbolic float->int cast")
+            # trunc toward zero: fresh integer q with |q| <= |a| < |q| + 1 and the sign of a; saturation is a side condition
+            q = self.fresh("f2i", "int")
+            qa = z3.ToReal(q)
+            st.assume(z3.If(a >= 0, z3.And(qa <= a, a < qa + 1), z3.And(qa >= a, a > qa - 1)))
+            if ty in INT_RANGES:
+                lo, hi = INT_RANGES[ty]
+                st.events = st.events + (("float_to_int_in_range", z3.And(a > lo - 1, a < hi + 1), f"as {ty}"),)
+            return q
         if kind.startswith("FloatToFloat"):
             return a
         if kind.startswith("PointerCoercion") or kind.startswith("PtrToPtr") or kind.startswith("Transmute") and isinstance(a, Ptr):
